@@ -40,31 +40,71 @@ func isCiphertextPtr(t types.Type) bool {
 var metaFields = map[string]bool{"MetaData": true, "Scale": true, "IsNTT": true, "IsMontgomery": true, "IsBatched": true, "LogDimensions": true,
 	"PlaintextMetaData": true, "CiphertextMetaData": true, "IsBitReversed": true}
 
+// metaDeleg: (function, parameter index) pairs known NOT to define the metadata of the element they receive there.
+// Computed as a greatest fixpoint over every function of the scope that has an output-named element parameter, so
+// that handing the output to a helper only counts when the helper (transitively) does the job.
+var metaDeleg = map[*types.Func]map[int]bool{}
+
 func scanMetaOut(c *core.Ctx) []ob {
+	metaDeleg = map[*types.Func]map[int]bool{}
+	for iter := 0; iter < 12; iter++ {
+		changed := false
+		scanMetaOutMode(c, func(f *types.Func, idx int, ok bool) {
+			if ok {
+				return
+			}
+			if metaDeleg[f] == nil {
+				metaDeleg[f] = map[int]bool{}
+			}
+			if !metaDeleg[f][idx] {
+				metaDeleg[f][idx] = true
+				changed = true
+			}
+		})
+		if !changed {
+			break
+		}
+	}
+	return scanMetaOutMode(c, nil)
+}
+
+func scanMetaOutMode(c *core.Ctx, collect func(f *types.Func, idx int, ok bool)) []ob {
 	var out []ob
 	n := 0
+	all := collect != nil
 	c.FuncDecls(func(pk *packages.Package, file *ast.File, fd *ast.FuncDecl) {
 		rel := core.ShortPkg(pk.PkgPath)
 		if !c.IsFixture && !(strings.HasPrefix(rel, "core/rlwe") || strings.HasPrefix(rel, "schemes/") || strings.HasPrefix(rel, "core/rgsw") || strings.HasPrefix(rel, "circuits/") || strings.HasPrefix(rel, "multiparty")) {
 			return
 		}
-		if fd.Recv == nil || !fd.Name.IsExported() || !(strings.Contains(core.RecvTypeName(fd), "Evaluator") || strings.Contains(core.RecvTypeName(fd), "Protocol")) || fileIsTestSupport(c.Program, fd.Pos()) {
+		if fd.Body == nil || fileIsTestSupport(c.Program, fd.Pos()) {
+			return
+		}
+		if !all && (fd.Recv == nil || !fd.Name.IsExported() || !(strings.Contains(core.RecvTypeName(fd), "Evaluator") || strings.Contains(core.RecvTypeName(fd), "Protocol"))) {
 			return
 		}
 		info := pk.TypesInfo
-		obj := info.Defs[fd.Name].(*types.Func)
+		obj, _ := info.Defs[fd.Name].(*types.Func)
+		if obj == nil {
+			return
+		}
 		sig := obj.Type().(*types.Signature)
 		var outP types.Object
+		outIdx := -1
 		hasIn := false
 		for i := 0; i < sig.Params().Len(); i++ {
 			p := sig.Params().At(i)
 			if isCiphertextPtr(p.Type()) && (p.Name() == "opOut" || p.Name() == "ctOut" || p.Name() == "ciphertextOut") {
 				outP = p
+				outIdx = i
+			} else if all && outP == nil && isOutParamName(p.Name()) && (isCiphertextPtr(p.Type()) || strings.Contains(p.Type().String(), "rlwe.Element[")) {
+				outP = p
+				outIdx = i
 			} else if isCiphertextPtr(p.Type()) || strings.Contains(p.Type().String(), "Operand") || strings.Contains(p.Type().String(), "ElementInterface") {
 				hasIn = true
 			}
 		}
-		if outP == nil || !hasIn {
+		if outP == nil || (!hasIn && !all) {
 			return
 		}
 		n++
@@ -133,10 +173,19 @@ func scanMetaOut(c *core.Ctx) []ob {
 								nOut++
 							}
 						}
-						for _, a := range v.Args {
+						for ai, a := range v.Args {
 							if isOut(a) {
 								if nOut == 1 {
-									hit = true
+									// the callee must itself define the metadata of what it receives there
+									defines := true
+									for _, cf := range effectsOf(c.Program).calleesOrSelf(info, v, f) {
+										if metaDeleg[cf][ai] {
+											defines = false
+										}
+									}
+									if defines {
+										hit = true
+									}
 								}
 							} else if mentionsVar(info, a, map[types.Object]bool{outP: true}) {
 								// the output handed over inside a container of ciphertexts / as an element view
@@ -270,6 +319,10 @@ func scanMetaOut(c *core.Ctx) []ob {
 				}
 			}
 		}
+		if all {
+			collect(funcOrigin(obj), outIdx, len(bad) == 0)
+			return
+		}
 		if len(bad) == 0 {
 			out = append(out, okOb("METAOUT", key, c.Rel(fd.Pos()), "output metadata written (or delegated) on every success path", true))
 		} else {
@@ -294,6 +347,8 @@ func metaProps(key string) []string {
 		ps = []string{"C13"}
 	case strings.Contains(key, "core/rgsw"):
 		ps = []string{"C20"}
+	case strings.Contains(key, "multiparty"):
+		ps = []string{"C16"}
 	}
 	if strings.Contains(key, "inner_sum") || strings.Contains(key, "Automorphism") || strings.Contains(key, "Trace") || strings.Contains(key, "Replicate") || strings.Contains(key, "InnerSum") || strings.Contains(key, "Rotate") || strings.Contains(key, "Average") || strings.Contains(key, "InnerFunction") || strings.Contains(key, "Conjugate") {
 		ps = append(ps, "C11")
@@ -308,7 +363,7 @@ func metaProps(key string) []string {
 }
 
 func init() {
-	core.Register(&core.Rule{Name: "METAOUT", Props: []string{"C04", "C05", "C06", "C11", "C12", "C13", "C20"},
+	core.Register(&core.Rule{Name: "METAOUT", Props: []string{"C04", "C05", "C06", "C11", "C12", "C13", "C16", "C20"},
 		Doc: "every exported evaluator method with an output ciphertext writes that output's metadata, copies into it, initialises it through InitOutput*, hands it to a callee, or compares it with an operand (aliasing) on every path to a success return (must-analysis over go/cfg)",
 		Run: func(c *core.Ctx) []ob {
 			out := scanMetaOut(c)
